@@ -1,7 +1,7 @@
 """C19 — abandoned or failing calls are cancelled and never wedge the server."""
 import mir
 from mir import callee
-from common import controlling_edges, switch_expr, switch_meaning
+from common import controlling_edges, switch_expr, switch_meaning, switch_edges, select_info
 from rtc_common import *  # noqa: F401,F403
 
 THOROUGH_CONFIGS = ["full-codecs", "json-codec", "tests"]
@@ -13,7 +13,10 @@ EXPLANATION = (
     "reply channel in one biased select exactly when the method is not #[no_cancel]; R19.2 generated code and remoc::rtc "
     "never leak a guard (no mem::forget / ManuallyDrop / Box::leak) and contain no unsafe block; R19.3 the serve loops "
     "keep serving after non-final receive errors (OnReqReceiveError::handle's default returns Ok) and unknown request "
-    "kinds; R19.4 a failing reply must not stop the serve loop (today it does: known finding F6). When the callee is "
+    "kinds; R19.4 a failing reply must not stop the serve loop (today it does: known finding F6); R19.5 the request queue (rch::mpsc::Receiver::recv / "
+    "poll_recv / try_recv / recv_many) holds final errors of single senders back until the queue is closed, so one or "
+    "several lost client connections do not end the serve loop; R19.6 rtc::send_reply does not report a reply whose caller "
+    "or connection went away (Dropped, Send(Send)) on the reply-error channel. When the callee is "
     "abandoned and behaviour with concurrent clients are not decided."
 )
 ASSUMPTIONS = [
@@ -164,6 +167,80 @@ def r19_4(ck, F):
                   {"expansions": [b.path for b, _ in bad], "generator": "remoc_macro/src/trait_def.rs"})
 
 
+def r19_5(ck, F):
+    ck.rule("R19.5", "a lost client connection does not stop the server: in rch::mpsc::Receiver::{recv, poll_recv, try_recv, "
+            "recv_many} (the request queue of every serve loop) no return is reachable from the is_final() == true edge of a "
+            "received error without going back to the queue; the held-back error is only returned once the queue is closed",
+            "the second client whose connection fails makes recv() return a final error, every generated serve loop takes "
+            "that as `all clients gone` and stops serving the remaining clients", floor=4)
+    R = "rch::mpsc::receiver::Receiver::"
+    for m, q in (("recv", "tokio::sync::mpsc::Receiver::recv"), ("poll_recv", "tokio::sync::mpsc::Receiver::poll_recv"),
+                 ("try_recv", "tokio::sync::mpsc::Receiver::try_recv"), ("recv_many", "tokio::sync::mpsc::Receiver::recv_many")):
+        b = F.main_body(R + m)
+        qs = [bb for bb, t in b.calls(q)]
+        if not qs:
+            raise mir.AnchorMissing(f"{q} in {R}{m}")
+        fin = [(sb, tb) for sb, tb, mm, e in switch_edges(b, lambda e: bool(mir.calls_in(e, "rch::base::receiver::RecvError::is_final")) or
+                                                           bool(mir.calls_in(e, "rch::mpsc::receiver::RecvError::is_final")))
+               if mm is True and not b.is_cleanup(sb)]
+        if not fin:
+            ck.bad(f"mpsc::Receiver::{m}#is-final", f"{R}{m} does not distinguish final errors (is_final) of a received request", b.loc(0))
+            continue
+        if m == "recv_many":
+            # batch form: the final error is stored and the batch loop goes on; no Err return from the final edge
+            errs = [x for x, i, v in b.result_stores("Err")]
+            bad = [(sb, b.find_path([tb], errs, avoid=[sb])) for sb, tb in fin]
+        else:
+            bad = [(sb, b.find_path([tb], b.returns(), avoid=qs)) for sb, tb in fin]
+        bad = [(sb, p) for sb, p in bad if p]
+        ck.expect(not bad, f"mpsc::Receiver::{m}#final-held-back", f"{len(fin)} is_final() edge(s): all continue with the queue",
+                  f"{R}{m} returns from the final-error branch while senders remain (path {bad[0][1] if bad else ''})",
+                  b.loc(bad[0][0]) if bad else None)
+
+
+def r19_6(ck, F):
+    ck.rule("R19.6", "a caller that went away while the reply was in flight is not a server error: in the task spawned by "
+            "rtc::send_reply the SendingErrorKind::Dropped edge and the SendingErrorKind::Send(SendErrorKind::Send) edge never "
+            "reach err_tx.send(kind)", "a call future dropped between queueing and transmission of its reply is reported on "
+            "the reply-error channel and (F6) terminates the serve loop for all clients", floor=2)
+    fam = F.family("rtc::send_reply")
+    ks = [k for k in fam if k.kind == "coroutine" and list(k.calls("tokio::sync::mpsc::Sender::send"))]
+    if not ks:
+        raise mir.AnchorMissing("error-forwarding task of rtc::send_reply")
+    k = ks[0]
+    snd = [bb for bb, t in k.calls("tokio::sync::mpsc::Sender::send")]
+    outer = switch_edges(k, lambda e: e[0] == "discr" and "SendingErrorKind" in str(e[-1] if isinstance(e[-1], str) else e))
+    def variants_of(sb):
+        for st in k.stmts(sb):
+            rv = st.get("rv") or {}
+            if rv.get("r") == "discr":
+                return rv.get("adt", ""), [v[1] for v in rv.get("variants", [])]
+        return "", []
+    found = {"Dropped": False, "Send": False}
+    bad = []
+    for sb in sorted({bb for bb in k.reachable if k.term(bb)["t"] == "switch"}):
+        adt, vs = variants_of(sb)
+        t = k.term(sb)
+        edges = [(v, tb) for v, tb in t["targets"]] + [(None, t["otherwise"])]
+        for v, tb in edges:
+            mm = switch_meaning(k, sb, v)
+            names = list(mm) if isinstance(mm, tuple) else [mm]
+            if adt.endswith("rch::SendingErrorKind") and "Dropped" in names:
+                found["Dropped"] = True
+                if len(names) > 1 or k.find_path_cp([tb], snd, avoid=[sb]):
+                    bad.append(("Dropped", sb))
+            if adt.endswith("rch::base::sender::SendErrorKind") or adt.endswith("base::SendErrorKind"):
+                if "Send" in names:
+                    found["Send"] = True
+                    if len(names) > 1 or k.find_path_cp([tb], snd, avoid=[sb]):
+                        bad.append(("Send(Send)", sb))
+    for what in ("Dropped", "Send"):
+        hit = [x for x in bad if x[0].startswith(what)]
+        ck.expect(found[what] and not hit, f"send_reply#{what}-not-reported", f"{what}: filtered before err_tx.send",
+                  f"rtc::send_reply forwards SendingErrorKind::{what} (caller / connection gone) to the reply-error channel"
+                  if found[what] else f"rtc::send_reply does not single out SendingErrorKind::{what}", k.loc(hit[0][1]) if hit else k.loc(0))
+
+
 def run(ck, F):
-    for r in (r19_1, r19_2, r19_3, r19_4):
+    for r in (r19_1, r19_2, r19_3, r19_4, r19_5, r19_6):
         ck.run_rule(r)
